@@ -516,11 +516,13 @@ func (bh *Header) RemoveReference(r *Reference) error {
 		return errInvalidReference
 	}
 	bh.refs = append(bh.refs[:r.id], bh.refs[r.id+1:]...)
-	for i := range bh.refs[r.id:] {
-		bh.refs[i+int(r.id)].id--
+	delete(bh.seenRefs, r.name)
+	for _, sr := range bh.refs[r.id:] {
+		sr.id--
+		bh.seenRefs[sr.name] = sr.id
 	}
 	r.id = -1
-	delete(bh.seenRefs, r.name)
+	r.owner = nil
 	return nil
 }
 
@@ -546,11 +548,13 @@ func (bh *Header) RemoveReadGroup(rg *ReadGroup) error {
 		return errInvalidReadGroup
 	}
 	bh.rgs = append(bh.rgs[:rg.id], bh.rgs[rg.id+1:]...)
-	for i := range bh.rgs[rg.id:] {
-		bh.rgs[i+int(rg.id)].id--
+	delete(bh.seenGroups, rg.name)
+	for _, sg := range bh.rgs[rg.id:] {
+		sg.id--
+		bh.seenGroups[sg.name] = sg.id
 	}
 	rg.id = -1
-	delete(bh.seenGroups, rg.name)
+	rg.owner = nil
 	return nil
 }
 
@@ -576,10 +580,12 @@ func (bh *Header) RemoveProgram(p *Program) error {
 		return errInvalidProgram
 	}
 	bh.progs = append(bh.progs[:p.id], bh.progs[p.id+1:]...)
-	for i := range bh.progs[p.id:] {
-		bh.progs[i+int(p.id)].id--
+	delete(bh.seenProgs, p.uid)
+	for _, sp := range bh.progs[p.id:] {
+		sp.id--
+		bh.seenProgs[sp.uid] = sp.id
 	}
 	p.id = -1
-	delete(bh.seenProgs, p.uid)
+	p.owner = nil
 	return nil
 }
